@@ -61,8 +61,15 @@ def run(ctx):
         vlib.log("replay: not reproduced on the current tree")
         return 0
     q = ctx.tier == "quick"
-    mc = ctx.tlc("Persist", "PersistMC.cfg", timeout=3000, coverage=True,
-                 constants={} if q else dict(NFlows="2", MaxCalls="4", MaxRestarts="3"))
+    # bounded exhaustive configurations, sizes measured with 16 workers: quick 0.8 M distinct states (11 s); thorough
+    # 1.9 M (1 flow, longer histories), 0.45 M (2 flows x 1 node), 17 M (2 flows x 2 nodes, manual trigger; ~3 min)
+    mcc = [{}] if q else [dict(MaxCalls="4", MaxRestarts="3"), dict(NFlows="2", NNodes="1", MaxCalls="4", MaxRestarts="3"),
+                          dict(NFlows="2", MaxCalls="3", MaxSteps="2", TrigKinds='{"manual"}')]
+    mcs = [ctx.tlc("Persist", "PersistMC.cfg", timeout=3000, coverage=(i == 0), constants=c) for i, c in enumerate(mcc)]
+    mc = mcs[0]
+    for other in mcs[1:]:
+        mc.distinct += other.distinct
+        mc.generated += other.generated
     plans = [("2x2", {}, 150 if q else 2500),
              ("3nodes", dict(NFlows="1", NNodes="3", MaxCalls="5", MaxSteps=str(3 + ctx.seed % 2)), 60 if q else 1500)]
 
